@@ -35,6 +35,13 @@ func setup(repo, tier string) *Prog {
 	}
 	p.tier = tier
 	p.needAppendAxiom = map[string]bool{}
+	vd := os.Getenv("GOVC_VERIF")
+	if vd == "" {
+		vd = "/verif"
+	}
+	if err := p.loadRawSpecs(vd + "/spec/raw_specs.smt2"); err != nil {
+		fmt.Fprintln(os.Stderr, "raw specs:", err)
+	}
 	p.loadSpecSigs()
 	p.buildSCC()
 	if errs := p.evalGlobals(); len(errs) > 0 {
